@@ -7,3 +7,6 @@ func vhEndpoints(n int) []string {
 }
 func vhEpManager(s *Server) *endpoint.Manager { return new(endpoint.Manager) }
 func vhEpShutdown()                            {}
+
+// vhFreeSchedule: natively the threads of the harness run freely from here on (no-op in the engine)
+func vhFreeSchedule() {}
